@@ -1,4 +1,4 @@
-(** hashed_layouts_safe: the layouts 0003 and 0004 map EVERY object id to a root path whose
+(** hashed_layouts_safe: the layouts 0003 (configured with tuples) and 0004 map EVERY object id to a root path whose
     components are all Normal (no "..", not absolute, at least one component, the first one not
     `extensions`): the lexical part of [validate_object_root] never refuses them and the root is
     strictly inside the storage root.  Stated over the code model Model/Layout.v ([Layout.map]);
@@ -129,17 +129,21 @@ Proof.
   vm_compute in H. discriminate.
 Qed.
 
+(** 0003 with tupleSize = numberOfTuples = 0 is left out: since fix e1de1bb of /repo its root is
+    the percent-encoded id alone (C11), e.g. `extensions` for the id `extensions` and the empty path
+    for the empty id; those roots are refused by validate_object_root, not made safe by the layout. *)
 Theorem hashed_layouts_safe_lemma : forall (c : Layout.cfg) id dg p,
-  (c_ext c = E0003 \/ c_ext c = E0004) ->
+  (c_ext c = E0003 /\ c_ts c <> 0 \/ c_ext c = E0004) ->
   Layout.cfg_ok c = true -> inputs_ok c id dg = true -> known_c11 c id = false ->
   Layout.map c id dg = Ok p ->
   rel_safe p = true /\ first_is_extensions p = false /\
   forall R, below R (main_root R p) = true.
 Proof.
-  intros c id dg p He Hok Hin Hk Hm.
+  intros c id dg p He0 Hok Hin Hk Hm.
+  assert (K1 : c_ext c = E0003 -> c_ts c <> 0) by (intro E3; destruct He0 as [[_ T]|E4]; [exact T | congruence]).
+  assert (He : c_ext c = E0003 \/ c_ext c = E0004) by (destruct He0 as [[E3 _]|E4]; [left | right]; assumption).
   pose proof (map_correct c id dg Hok Hin Hk) as MC. rewrite Hm in MC. cbn [refusal] in MC.
   destruct (inputs_ok_inv _ _ _ Hin) as (_ & _ & W3).
-  destruct (known_c11_inv _ _ Hk) as (K1 & _ & _).
   destruct (cfg_ok_hashed c He Hok) as [Hz Hp].
   pose proof W3 as W3'. unfold digest_ok in W3'. apply andb_true_iff in W3' as [Hl HX].
   assert (DL : (0 < List.length dg)%nat).
@@ -167,8 +171,8 @@ Proof.
       unfold spec_0003 in MC. inversion MC as [MP]. fold nt ts in MP |- *.
       destruct (HD (encapsulation (us_chars id) dg)) as [s1 [r [E1 E2]]].
       + apply encapsulation_clean. exact HX.
-      + intro Z. exfalso. unfold c11_0003_zero_tuples in K1. rewrite He in K1.
-        assert (c_nt c = 0) by (subst nt; lia). assert (c_ts c = 0) by (apply Hz; assumption). rewrite H0 in K1. discriminate.
+      + intro Z. exfalso. apply (K1 He).
+        assert (c_nt c = 0) by (subst nt; lia). apply Hz; assumption.
       + exists s1, r. rewrite <- E1. split; [reflexivity | exact E2].
     - (* 0004 *)
       unfold spec_0004 in MC. inversion MC as [MP]. fold nt ts in MP |- *.
